@@ -146,9 +146,134 @@ fn run_observer(k: usize) -> Vec<String> {
     errs
 }
 
+pub const N_RELEASES: usize = 9;
+struct DropPanic;
+/// payload whose destructor logs itself and then panics
+struct Bomb(A);
+impl Drop for Bomb {
+    fn drop(&mut self) {
+        if !std::thread::panicking() {
+            std::panic::panic_any(DropPanic);
+        }
+    }
+}
+impl std::fmt::Debug for Bomb {
+    fn fmt(&self, f: &mut std::fmt::Formatter) -> std::fmt::Result {
+        f.write_str("Bomb")
+    }
+}
+
+fn account_release(tag: &str, blocks_expected: usize, want_drops: usize) -> Vec<String> {
+    let mut errs = vec![];
+    let mut drops = 0;
+    for e in ev::drain() {
+        match e {
+            Ev::Drop { .. } => drops += 1,
+            Ev::BadDrop { .. } => errs.push(format!("[baddrop] {}: a destructor ran on something that is not a live object", tag)),
+            Ev::Dealloc { status, size, align, rsize, ralign, .. } if status != 0 => errs.push(format!(
+                "[layout] {}: block requested as (size {}, align {}) released as (size {}, align {}), status {}", tag, rsize, ralign, size, align, status)),
+            _ => {}
+        }
+    }
+    if drops != want_drops {
+        errs.push(format!("[drops] {}: {} destructor run(s), the specification says {}", tag, drops, want_drops));
+    }
+    let t = alloc::table();
+    let live = t.iter().filter(|r| r.live).count();
+    if live != 0 {
+        errs.push(format!("[leak] {}: {} of {} block(s) were not returned to the allocator although the last handle is gone", tag, live, blocks_expected));
+    }
+    if t.iter().any(|r| r.frees > 1) {
+        errs.push(format!("[frees] {}: a block was returned more than once", tag));
+    }
+    errs
+}
+
+/// the payload's destructor panics during the last release of a handle of kind k
+fn run_release(k: usize) -> Vec<String> {
+    use triomphe::{ArcUnion, OffsetArc};
+    use unsize::{CoerceUnsize, Coercion};
+    let names = ["Arc", "last of two Arc clones", "Arc<[T]>", "Arc<dyn Debug> (unsized)", "ThinArc (header)", "OffsetArc", "ArcUnion (second)",
+                 "UniqueArc", "Arc<HeaderSlice> (element)"];
+    let tag = format!("last release of {} with a panicking payload destructor", names[(k - 1) % names.len()]);
+    alloc::reset();
+    ev::LOG.clear();
+    alloc::track(true);
+    let r = catch_unwind(AssertUnwindSafe(|| match k {
+        1 => drop(Arc::new(Bomb(A::mk(1)))),
+        2 => {
+            let a = Arc::new(Bomb(A::mk(1)));
+            let b = a.clone();
+            drop(a);
+            drop(b);
+        }
+        3 => drop(Arc::<[Bomb]>::from(vec![Bomb(A::mk(1))])),
+        4 => {
+            let d: Arc<dyn std::fmt::Debug> = Arc::new(Bomb(A::mk(1))).unsize(Coercion!(to dyn std::fmt::Debug));
+            drop(d)
+        }
+        5 => drop(ThinArc::<Bomb, u8>::from_header_and_slice(Bomb(A::mk(1)), &[1, 2])),
+        6 => drop(Arc::into_raw_offset(Arc::new(Bomb(A::mk(1))))),
+        7 => drop(ArcUnion::<u64, Bomb>::from_second(Arc::new(Bomb(A::mk(1))))),
+        8 => drop(UniqueArc::new(Bomb(A::mk(1)))),
+        _ => drop(Arc::from_header_and_iter(7u32, vec![Bomb(A::mk(1))].into_iter())),
+    }));
+    alloc::track(false);
+    let mut errs = vec![];
+    match r {
+        Err(p) if p.is::<DropPanic>() => {}
+        Err(_) => errs.push(format!("[panicked] {}: a different panic came out", tag)),
+        Ok(()) => errs.push(format!("[panicked] {}: the destructor's panic was swallowed", tag)),
+    }
+    errs.extend(account_release(&tag, 1, 1));
+    alloc::reset();
+    errs
+}
+
+/// ArcUnion over two payload types of the same size and alignment, one plain data, one with a destructor
+fn run_union_drop(k: usize) -> Vec<String> {
+    use triomphe::ArcUnion;
+    // A is 12 bytes, align 4, with a destructor; [u32; 3] has the same layout and none
+    let tag = format!("ArcUnion<plain, droppable> / <droppable, plain> with equal layouts, case {}", k);
+    alloc::reset();
+    ev::LOG.clear();
+    alloc::track(true);
+    let want = match k {
+        1 => {
+            drop(ArcUnion::<[u32; 3], A>::from_second(Arc::new(A::mk(1))));
+            1
+        }
+        2 => {
+            drop(ArcUnion::<A, [u32; 3]>::from_first(Arc::new(A::mk(1))));
+            1
+        }
+        3 => {
+            let u = ArcUnion::<[u32; 3], A>::from_second(Arc::new(A::mk(1)));
+            let v = u.clone();
+            drop(u);
+            drop(v);
+            1
+        }
+        _ => {
+            drop(ArcUnion::<[u32; 3], A>::from_first(Arc::new([1, 2, 3])));
+            0
+        }
+    };
+    alloc::track(false);
+    let errs = account_release(&tag, 1, want);
+    alloc::reset();
+    errs
+}
+
 pub fn run_case(c: &Value, variant: usize) -> Vec<String> {
     if c["ctor"].as_str() == Some("observe") {
         return run_observer(c["k"].as_u64().unwrap_or(1) as usize);
+    }
+    if c["ctor"].as_str() == Some("release") {
+        return run_release(c["k"].as_u64().unwrap_or(1) as usize);
+    }
+    if c["ctor"].as_str() == Some("union_drop") {
+        return run_union_drop(c["k"].as_u64().unwrap_or(1) as usize);
     }
     let g = |k: &str| c[k].as_u64().unwrap_or(0) as usize;
     let ctor = c["ctor"].as_str().unwrap_or("?");
